@@ -90,8 +90,8 @@ impl Prop for C03 {
                 out.push(format!("lim {} {} {}", v.type_name(), lim.show(), v.tree()));
             }
             // --- the same encoding with a length field rewritten
-            let (bytes, r) = v.encode();
-            if r.is_ok() && bytes.len() >= 5 {
+            let bytes = v.try_encode().unwrap_or_default();
+            if bytes.len() >= 5 {
                 let lens = [e.max_str, e.max_bytes, e.max_arr, 0, 1, 2, 3, 4, 5];
                 let pos = length_field_positions(&bytes, &lens);
                 for _ in 0..2 {
